@@ -1,14 +1,13 @@
 SPECIFICATION Spec
 CONSTANTS
-  NameOrder <- NamesSmall
+  NameOrder <- NamesAB
   HiddenNames = {"b"}
   MaxDirs = 3
-  MaxLeaves = 3
-  SymLeaf = 2
-  InitCI = TRUE
+  MaxLeaves = 2
+  SymLeaf = 1
+  InitCI = FALSE
   InitHid = TRUE
-  WithListing = FALSE
-  WithBulk = TRUE
+  Ops = {"mkdir", "mknod", "symlink", "link", "open", "vremove", "rename", "setattr"}
   AllowSubtreeRename = FALSE
 INVARIANTS
   C13_MapListAgreement
